@@ -896,9 +896,15 @@ class BaseRequest:
         # take the new cookies first: ``val`` may be a view of this very
         # environ (``req.cookies = req.cookies``), empty once the header is gone
         val = dict(val)
-        self.environ.pop("HTTP_COOKIE", None)
-        r = RequestCookies(self.environ)
-        r.update(val)
+        # write the new header aside first: a name or value that is refused
+        # must leave the cookies of the request as they were
+        env = {}
+        RequestCookies(env).update(val)
+
+        if "HTTP_COOKIE" in env:
+            self.environ["HTTP_COOKIE"] = env["HTTP_COOKIE"]
+        else:
+            self.environ.pop("HTTP_COOKIE", None)
 
     def copy(self):
         """
